@@ -54,7 +54,7 @@ func runC03(w *core.World, r *core.Report) {
 		r.Undecided("R1", "INCMP handler", token.NoPos, "no handler for INCMP in Vm.Run")
 		return
 	}
-	hk := "INCMP handler " + core.QName(h)
+	hk := "INCMP handler"
 	moves := callsToSet(h, disp)
 	if len(moves) == 0 {
 		r.Bad("R4", hk+": move", h.Pos(), "the INCMP handler never calls the navigation dispatcher")
